@@ -336,6 +336,23 @@ class GlobalApproxTides(TidesBase):
 
         super().fixed_q_dt_changed()
 
+        # The complex Love numbers stored by unique frequency were built with the previous fixed-q / fixed-dt.
+        #    Rebuild them (if frequencies are available) before collapsing the modes.
+        if self.unique_tidal_frequencies is not None:
+            if self.use_ctl:
+                ctl_inputs = self.ctl_calc_input_getter()
+                self._ctl_complex_love_by_unique_freq = \
+                    ctl_neg_imk_helper_func(
+                        self.unique_tidal_frequencies, self.fixed_k2,
+                        self.ctl_calc_method, ctl_inputs
+                        )
+            else:
+                self._cpl_complex_love_by_unique_freq = \
+                    cpl_neg_imk_helper_func(
+                        self.unique_tidal_frequencies, self.fixed_k2,
+                        self.fixed_q
+                        )
+
         self.collapse_modes()
 
     def clear_state(self):
